@@ -60,6 +60,25 @@ _ERASE = re.compile(
 _PRESERVE = re.compile(
     r"(result::Result::<T, E>::(map_err|map|as_ref|as_mut|inspect_err|or_else)|ErrorContextExt::context|"
     r"option::Option::<T>::(map|as_ref|as_mut|cloned|copied|inspect)|clone::Clone::clone)$")
+# combinators that call their closure at most once, depending on the variant of the receiver:
+#   name -> (variants that trigger the closure, result when skipped, result after the closure)
+#   results: "recv" = the receiver's variant, "closure" = the closure's result tag, "Ok"/"Err"/"Some"/"None" fixed, None = not a tagged value
+_COMBINATORS = {
+    "and_then": (("Ok", "Some"), "recv", "closure"),
+    "map": (("Ok", "Some"), "recv", "pos"),
+    "inspect": (("Ok", "Some"), "recv", "pos"),
+    "filter": (("Some",), "recv", None),
+    "is_some_and": (("Some",), "false", "closure"),
+    "is_ok_and": (("Ok",), "false", "closure"),
+    "is_none_or": (("Some",), "true", "closure"),
+    "map_err": (("Err",), "recv", "neg"),
+    "inspect_err": (("Err",), "recv", "neg"),
+    "or_else": (("Err", "None"), "recv", "closure"),
+    "unwrap_or_else": (("Err", "None"), None, None),
+    "ok_or_else": (("None",), "Ok", "Err"),
+    "map_or": (("Ok", "Some"), None, None),
+}
+_COMBINATOR_RX = re.compile(r"(option::Option::<T>|result::Result::<T, E>)::(%s)$" % "|".join(_COMBINATORS))
 _SHORT_CIRCUIT = re.compile(r"iter::Iterator>?::(try_fold|try_for_each)$")
 _OK_OR = re.compile(r"option::Option::<T>::(ok_or|ok_or_else)$")
 _TO_OPT = re.compile(r"result::Result::<T, E>::ok$")
@@ -1060,7 +1079,12 @@ class Product:
                 else:
                     self._call_event(inst, n, t, tags)
                     short = bool(t.get("callee")) and bool(_SHORT_CIRCUIT.search(t["callee"]["path"])) and bool(g.closure_insts.get(n))
-                    for m, lab in g.succ[n]:
+                    comb = _COMBINATOR_RX.search(t["callee"]["path"]) if (t.get("callee") and len(g.closure_insts.get(n, [])) == 1) else None
+                    if comb:
+                        outs += self._combinator_edges(inst, n, t, tags, comb.group(2))
+                        for m, tg, learn in outs:
+                            pass
+                    for m, lab in ([] if comb else g.succ[n]):
                         if short and not (lab and lab[0] == "cl_enter"):
                             # try_fold / try_for_each over zero elements: `try { init }`
                             nt = dict(tags)
@@ -1097,6 +1121,32 @@ class Product:
                         nt = {s: v for s, v in tags.items() if s[0] != inst.id}
                         cn = lab[1] if lab and lab[0] == "cl_ret" else (inst.parent and (inst.parent.id, inst.call_bb))
                         ct = g.term(cn) if cn and cn in g.closure_insts else None
+                        cm = _COMBINATOR_RX.search(ct["callee"]["path"]) if (ct is not None and ct.get("callee") and len(g.closure_insts.get(cn, [])) == 1) else None
+                        if cm:
+                            if lab and lab[0] == "cl_again":
+                                continue                      # called at most once
+                            trig, skip_res, after = _COMBINATORS[cm.group(2)]
+                            pinst = g.inst(cn)
+                            dslot = g.slot_of(pinst, ct["dest"])
+                            r = tags.get((inst.id, 0, ()))
+                            if dslot is not None:
+                                self._kill(nt, dslot)
+                                dty = ct.get("dest_ty", "")
+                                if after == "closure" and r is not None:
+                                    nt[dslot] = r
+                                    for rel, v in self._subtags(tags, (inst.id, 0, ())):
+                                        if len(dslot[2]) + len(rel) <= 3:
+                                            nt[(dslot[0], dslot[1], dslot[2] + rel)] = v
+                                elif after == "pos":
+                                    nt[dslot] = ("Ok" if "Result<" in dty else "Some", ("call", cn))
+                                elif after == "neg":
+                                    nt[dslot] = ("Err" if "Result<" in dty else "None", ("call", cn))
+                                elif after in ("Ok", "Err", "Some", "None"):
+                                    nt[dslot] = (after, ("call", cn))
+                                elif _is_tagged_ty(dty):
+                                    nt[dslot] = ("?", ("call", cn))
+                            outs.append((m, nt, ()))
+                            continue
                         if ct is not None and ct.get("callee") and _SHORT_CIRCUIT.search(ct["callee"]["path"]):
                             # try_fold / try_for_each: a closure result that is Err/None/Break ends the iteration and IS the result;
                             # an Ok result either feeds the next call or is the result
@@ -1133,6 +1183,63 @@ class Product:
                 if qi not in seen:
                     seen.add(qi)
                     work.append(qi)
+
+    def _combinator_edges(self, inst, n, t, tags, name):
+        """out-edges of `recv.<combinator>(closure)`: the closure runs (once) only for the triggering variants of the receiver, so the
+        call is a branch on the receiver's variant - with the usual learn facts - and its result follows from which way it went"""
+        g = self.g
+        trig, skip_res, after = _COMBINATORS[name]
+        recv = self._tag_of_operand(inst, t["args"][0], tags) if t["args"] else None
+        rslot = None
+        a = t["args"][0] if t["args"] else None
+        if a is not None and a["k"] in ("copy", "move"):
+            rslot = g.slot_of(inst, a["p"])
+            if recv is None and not a["p"]["proj"]:
+                r = g._pointee(inst, a["p"]["l"])
+                if r is not None:
+                    rslot = g.slot_of(r[0], r[1])
+                    recv = tags.get(rslot) if rslot is not None else None
+        dty = t.get("dest_ty", "")
+        dslot = g.slot_of(inst, t["dest"])
+        is_res = "Result<" in (inst.body["locals"][a["p"]["l"]]["ty"] if a is not None and a["k"] in ("copy", "move") else "")
+        other = {"Ok": "Err", "Err": "Ok", "Some": "None", "None": "Some"}
+        tv = [v for v in trig if (v in ("Ok", "Err")) == is_res] or list(trig)
+        tv = tv[0]
+        origin = recv[1] if recv else (("place", rslot, n) if rslot is not None else ("call", n))
+        known = recv[0] if recv and recv[0] != "?" else None
+        outs = []
+        enter = [m for m, lab in g.succ[n] if lab and lab[0] == "cl_enter"]
+        skip = [m for m, lab in g.succ[n] if not (lab and lab[0] == "cl_enter")]
+        if known is None or known in trig:
+            for m in enter:
+                nt = dict(tags)
+                learn = ()
+                if known is None:
+                    learn = ((origin, tv),)
+                    if rslot is not None:
+                        nt[rslot] = (tv, origin)
+                    self._resolve_same_origin(nt, origin, tv)
+                outs.append((m, nt, learn))
+        if known is None or known not in trig:
+            for m in skip:
+                nt = dict(tags)
+                learn = ()
+                ov = known or other.get(tv)
+                if known is None and ov:
+                    learn = ((origin, ov),)
+                    if rslot is not None:
+                        nt[rslot] = (ov, origin)
+                    self._resolve_same_origin(nt, origin, ov)
+                if dslot is not None:
+                    self._kill(nt, dslot)
+                    if skip_res == "recv" and ov and _is_tagged_ty(dty):
+                        nt[dslot] = (ov, origin)
+                    elif skip_res in ("Ok", "Err", "Some", "None", "true", "false"):
+                        nt[dslot] = (skip_res, ("call", n))
+                    elif _is_tagged_ty(dty):
+                        nt[dslot] = ("?", ("call", n))
+                outs.append((m, nt, learn))
+        return outs
 
     def _resolve_same_origin(self, tags, origin, variant):
         """slots that hold the same not-yet-known value (same origin: a place and its as_ref() view) learn the variant together"""
